@@ -2,7 +2,10 @@ package interp
 
 import (
 	"go/types"
+	"regexp"
 	"strings"
+
+	"golang.org/x/tools/go/ssa"
 
 	"verif/engine/sym"
 )
@@ -174,6 +177,55 @@ func addStubIntrinsics(t map[string]intrinsic) {
 		return Iface{}
 	}
 
+	// environment of the process: taken from the harness variable VerifEnviron of the package under test
+	t["os.Environ"] = func(m *Machine, fr *frame, a []Value) Value {
+		for f := fr.caller; f != nil; f = f.caller {
+			if f.fn.Pkg != nil {
+				if g, ok := f.fn.Pkg.Members["VerifEnviron"].(*ssa.Global); ok {
+					return m.load(m.global(g))
+				}
+			}
+		}
+		return Slice{Nil: true}
+	}
+	t["os.Stat"] = func(m *Machine, fr *frame, a []Value) Value { return Tuple{Iface{}, Iface{}} }
+	// regular expressions on concrete input run natively
+	t["regexp.MustCompile"] = func(m *Machine, fr *frame, a []Value) Value {
+		return Native{regexp.MustCompile(m.goString(a[0], "regexp.MustCompile"))}
+	}
+	t["regexp.Compile"] = func(m *Machine, fr *frame, a []Value) Value {
+		re, err := regexp.Compile(m.goString(a[0], "regexp.Compile"))
+		if err != nil {
+			return Tuple{(*Value)(nil), joseErr(m, err.Error())}
+		}
+		return Tuple{Native{re}, Iface{}}
+	}
+	t["(*regexp.Regexp).MatchString"] = func(m *Machine, fr *frame, a []Value) Value {
+		re, ok := a[0].(Native)
+		if !ok {
+			m.unsupported("regexp value not created through the native shortcut")
+		}
+		return m.ctx.Bool(re.V.(*regexp.Regexp).MatchString(m.goString(a[1], "Regexp.MatchString")))
+	}
+	// the final decoding of the merged configuration tree into the target struct (mapstructure) is cut:
+	// the merged tree is published to the harness variable VerifMergedConfig
+	t["(*github.com/knadh/koanf/v2.Koanf).UnmarshalWithConf"] = func(m *Machine, fr *frame, a []Value) Value {
+		raw := m.methodOf(recvType(fr), "Raw")
+		tree := m.callFunction(fr, raw, []Value{a[0]}, nil)
+		for f := fr.caller; f != nil; f = f.caller {
+			if f.fn.Pkg != nil {
+				if g, ok := f.fn.Pkg.Members["VerifMergedConfig"].(*ssa.Global); ok {
+					m.store(m.global(g), tree)
+					break
+				}
+			}
+		}
+		return Iface{}
+	}
+
+	// koanf's deep copy of a generic tree goes through reflection (copystructure): done on interpreter values
+	t["github.com/knadh/koanf/maps.Copy"] = func(m *Machine, fr *frame, a []Value) Value { return m.deepCopyTree(a[0]) }
+
 	// CEL: cel-go is cut below heimdall's cellib.CompiledExpression. Compilation keeps the
 	// expression text; evaluation interprets the three canonical harness expressions and is
 	// nondeterministic (true / false / evaluation error) for every other text.
@@ -216,4 +268,30 @@ func addStubIntrinsics(t map[string]intrinsic) {
 			return Iface{T: types.NewPointer(et), V: cell}
 		}
 	}
+}
+
+func (m *Machine) deepCopyTree(v Value) Value {
+	switch x := v.(type) {
+	case *MapV:
+		if x == nil {
+			return x
+		}
+		c := &MapV{KT: x.KT, VT: x.VT}
+		for _, e := range x.Entries {
+			c.Entries = append(c.Entries, &mapEntry{K: e.K, V: m.deepCopyTree(e.V)})
+		}
+		return c
+	case Slice:
+		if x.Nil {
+			return x
+		}
+		a := make([]Value, len(x.A))
+		for i, e := range x.A {
+			a[i] = m.deepCopyTree(e)
+		}
+		return Slice{A: a}
+	case Iface:
+		return Iface{T: x.T, V: m.deepCopyTree(x.V)}
+	}
+	return copyVal(v)
 }
